@@ -75,6 +75,40 @@ def y_matrix(rows):
     return np.array([[np.nan if v is None else v for v in r] for r in rows], dtype=float)
 
 
+def _boundaries(f, depth_max, marker="/skactiveml/"):
+    """Line counts (as the thread scheduler counts them) at which a statement of the outermost library frames starts."""
+    import sys
+
+    pts, cnt, depth = [], [0], [0]
+
+    def local(frame, event, arg):
+        if event == "line":
+            cnt[0] += 1
+            if cnt[0] > FUEL:
+                raise SimFuelExhausted("calibration")
+            if depth[0] <= depth_max:
+                pts.append(cnt[0])
+        elif event == "return":
+            depth[0] -= 1
+        return local
+
+    def glob(frame, event, arg):
+        if marker in frame.f_code.co_filename:
+            depth[0] += 1
+            return local
+        return None
+
+    prev = sys.gettrace()
+    sys.settrace(glob)
+    try:
+        f()
+    except BaseException:  # noqa: BLE001 - the judged execution reports it
+        pass
+    finally:
+        sys.settrace(prev)
+    return pts
+
+
 class C07Check(Check):
     prop = "C07"
     engine = "crowdsim"
@@ -95,7 +129,7 @@ class C07Check(Check):
         "without any available annotator existed. Distinct by (subject, argument representation, fault kinds, probes)."
     )
     fault_kinds = ["annotator_offline", "pair_unavailable", "no_answer", "thread_preemption"]
-    probes_expected = ["row_without_available_annotator", "fewer_annotators_than_requested", "batch_clipped", "repr_none_none", "repr_none_idx", "repr_none_bool", "repr_idx_bool", "repr_rows", "multi_cycle", "utilities_checked", "napa_array", "napa_array_shorter_than_batch", "mask_not_bool_dtype", "labeled_sample_still_candidate", "string_class_labels", "overlapping_calls"]
+    probes_expected = ["row_without_available_annotator", "fewer_annotators_than_requested", "batch_clipped", "repr_none_none", "repr_none_idx", "repr_none_bool", "repr_idx_bool", "repr_rows", "multi_cycle", "utilities_checked", "napa_array", "napa_array_shorter_than_batch", "mask_not_bool_dtype", "labeled_sample_still_candidate", "string_class_labels", "overlapping_calls", "lockstep_interleaving"]
     assumptions = [
         "availability is what the candidates/annotators arguments say (documented table); with both None: pairs whose label is missing",
         "termination is judged with a deterministic fuel of %d line events inside skactiveml per query" % FUEL,
@@ -148,7 +182,7 @@ class C07Check(Check):
             cycles.append(self._gen_cycle(g, f, n, na, subject))
         # two caller threads inside query on the same strategy object (the pre-emption points are task-local line counts)
         o = rng.fork("overlap")
-        if subject.startswith("SAW:") and subject[4:] in OVERLAP_INNER and o.chance(0.5):
+        if subject.startswith("SAW:") and subject[4:] in OVERLAP_INNER and o.chance(0.8):
             j = o.randrange(0, len(cycles))
             other = self._gen_cycle(o, o, n, na, subject)
             if o.chance(0.5):
@@ -160,7 +194,8 @@ class C07Check(Check):
             cycles[j]["overlap"] = {
                 "cyc": other,
                 "first": o.pick([0, 1]),
-                "switches": {str(r): sorted({int(round(10 ** o.uniform(0.3, 3.6))) for _ in range(o.pick([0, 1, 1, 2, 4]))}) for r in (0, 1)},
+                "plan": o.pick(["random", "lockstep1", "lockstep2", "lockstep2"]),
+                "switches": {str(r): sorted({int(round(10 ** o.uniform(0.3, 4.5))) for _ in range(o.pick([0, 1, 2, 4, 8, 16, 16]))}) for r in (0, 1)},
             }
         return {"engine": "crowdsim", "subject": subject, "model": "pwc", "seed": g.randrange(0, 1000), "X": X.tolist(), "y0": y0, "truth": truth, "cycles": cycles, "str_labels": rng.fork("str").chance(0.15), "y_aggregate": g.pick([None, None, "mv3", "first"]), "iet": g.pick([None, None, {"epsilon": 0.5, "alpha": 0.5}, {"epsilon": 1.0, "alpha": 0.01}, {"epsilon": 0.0, "alpha": 0.2}])}
 
@@ -404,7 +439,19 @@ class C07Check(Check):
             SIM.ctx, SIM.trace, SIM.steps = ctx, [], 0
             funcs = [(lambda c=c, ye=ye: qs.query(X, ye, **c)) for c, ye in zip(calls, yencs)]
             order = [0, 1] if ov.get("first", 0) == 0 else [1, 0]
-            sched = ThreadSched(funcs, order, ov.get("switches") or {}, fuel=FUEL)
+            switches = ov.get("switches") or {}
+            plan = ov.get("plan", "random")
+            if plan.startswith("lockstep"):
+                # both callers yield at every statement boundary of the outermost (lockstep1) or the two outermost
+                # (lockstep2) library frames: A1 B1 A2 B2 ...  The boundaries are the line counts of a sequential
+                # run of the same call on a copy of the object.
+                depth_max = int(plan[-1])
+                switches = {}
+                for i, (c, ye) in enumerate(zip(calls, yencs)):
+                    twin = copy.deepcopy(qs)
+                    switches[str(order.index(i))] = _boundaries(lambda: twin.query(X, ye, **copy.deepcopy(c)), depth_max)
+                ctx.probe("lockstep_interleaving")
+            sched = ThreadSched(funcs, order, switches, fuel=FUEL)
             try:
                 res = sched.run()
             finally:
@@ -478,6 +525,10 @@ class C07Check(Check):
             c = copy.deepcopy(sc)  # the overlapping call alone, sequentially
             c["cycles"] = [ov["cyc"]]
             yield c
+            if ov.get("plan", "random") != "random":
+                c = copy.deepcopy(sc)
+                c["cycles"][j]["overlap"]["plan"] = "random"
+                yield c
             for r, pts in ov["switches"].items():
                 for k in range(len(pts)):
                     c = copy.deepcopy(sc)
